@@ -388,6 +388,23 @@ func pairOracles(x *Ctx, reqs []*breq) {
 	if len(adds) > 1 {
 		x.fail("id", "component-added-twice", "two concurrent adds of the same (type, entity) component were both answered with success (%s and %s)", adds[0].Who, adds[1].Who)
 	}
+	// C13 under concurrency: once a member has been told that c - the only
+	// subscriber of T - left, it is not notified of a change of a T component
+	if left["c"] {
+		cpid := x.J["c"].ParticipantID
+		for _, n := range members {
+			told := false
+			for _, r := range x.C[n].All() {
+				if m, ok := r.Msg.(*hagallpb.ParticipantLeaveBroadcast); ok && m.ParticipantId == cpid {
+					told = true
+					continue
+				}
+				if told && (r.Type == 26 || r.Type == 29 || r.Type == 31) {
+					x.fail("relay", "component-notification-after-only-subscriber-left", "%s was told that c (the only subscriber of T) left and was then sent a %v for a T component", n, r.Msg.ProtoReflect().Descriptor().Name())
+				}
+			}
+		}
+	}
 	// C13 under concurrency: no update notification after the answer to an unsubscribe
 	for _, u := range reqs {
 		if u.Kind != "unsub" {
@@ -478,6 +495,15 @@ func pairOracles(x *Ctx, reqs []*breq) {
 	delete(pv.PIDs, pj.ParticipantID)
 	tid := x.Vars["tid"].(uint32)
 	mods := s1.Mods{Vikja: true, Odal: true}
+	// C12 under concurrency: an acknowledged removal of (T, ea) - nothing in a
+	// block adds it again - is final, whatever update of it was in flight
+	for _, q := range reqs {
+		if accepted[q] && (q.Kind == "cdel" || (q.Kind == "edel" && q.Who == "a")) {
+			if d, ok := pv.Comps[s1.CompKey{T: tid, E: eaL}]; ok {
+				x.fail("store", "removed-component-present", "%s's %s was acknowledged, yet a newcomer is handed component (T, ea) = %q (an update in flight re-created it)", q.Who, q.Kind, d)
+			}
+		}
+	}
 	for _, n := range members {
 		v := finalView(x, n, reqs)
 		delete(v.PIDs, pj.ParticipantID) // the probe's own join broadcast
@@ -544,8 +570,17 @@ func stateFirstView(x *Ctx, n string, reqs []*breq) *s1.View {
 
 // relayRequired: component relays are required only for subscribers.
 func relayRequired(x *Ctx, q *breq, n string) bool {
+	reqs := x.Vars["reqs"].([]*breq)
 	switch q.Kind {
-	case "cadd", "cupd", "cdel":
+	case "cupd":
+		// dropped if the component (T, ea) was removed first: by a delete of it or of ea
+		for _, o := range reqs {
+			if o.Kind == "cdel" || (o.Kind == "edel" && o.Who == "a") {
+				return false
+			}
+		}
+		return n == "c" && !hasKind(reqs, "unsub")
+	case "cadd", "cdel":
 		return n == "c" && !hasKind(x.Vars["reqs"].([]*breq), "unsub")
 	case "customto":
 		return true
@@ -590,6 +625,13 @@ func init() {
 	}
 	pairList = append(pairList, []pairReq{{"b", "leave"}, {"d", "join"}}, []pairReq{{"b", "cadd"}, {"d", "join"}}, []pairReq{{"b", "asset"}, {"d", "join"}})
 	pairList = append(pairList, []pairReq{{"a", "cadd"}, {"b", "cadd"}}, []pairReq{{"a", "cupd"}, {"c", "unsub"}}, []pairReq{{"a", "cdel"}, {"c", "unsub"}})
+	// an update of a component against its removal (by delete, by deletion of
+	// its entity): the removal always wins in the store; and a component add /
+	// delete against the departure of the type's only subscriber
+	pairList = append(pairList,
+		[]pairReq{{"a", "cupd"}, {"b", "cdel"}}, []pairReq{{"a", "edel"}, {"b", "cupd"}}, []pairReq{{"a", "cdel"}, {"b", "cupd"}},
+		[]pairReq{{"a", "cadd"}, {"c", "leave"}}, []pairReq{{"a", "cdel"}, {"c", "leave"}}, []pairReq{{"a", "cadd"}, {"c", "switch"}},
+	)
 	// triples
 	pairList = append(pairList,
 		[]pairReq{{"a", "eadd"}, {"b", "edel"}, {"d", "join"}},
@@ -719,7 +761,7 @@ func init() {
 	}
 	add("C05", func(tier string) []check.Job {
 		b, bud := bnd(tier)
-		return []check.Job{s2job("c10-join-join", b+1, bud), s2job("c10-eadd-eadd", b+1, bud)}
+		return []check.Job{s2job("c10-join-join", b+1, bud), s2job("c10-eadd-eadd", b+1, bud), s2jobOpt("c10-join-join", 1, bud, false, true), s2jobOpt("c10-eadd-eadd", 1, bud, false, true)}
 	})
 	add("C06", func(tier string) []check.Job {
 		b, bud := bnd(tier)
@@ -736,10 +778,132 @@ func init() {
 	})
 	add("C12", func(tier string) []check.Job {
 		b, bud := bnd(tier)
-		return []check.Job{s2job("c10-tadd-same", b+1, bud), s2job("c10-tadd-other", b+1, bud), s2job(pairName(pairReq{"a", "cadd"}, pairReq{"b", "cadd"}), b+1, bud)}
+		return []check.Job{s2job("c10-tadd-same", b+1, bud), s2job("c10-tadd-other", b+1, bud), s2job(pairName(pairReq{"a", "cadd"}, pairReq{"b", "cadd"}), b+1, bud),
+			s2job(pairName(pairReq{"a", "cupd"}, pairReq{"b", "cdel"}), b+1, bud), s2job(pairName(pairReq{"a", "edel"}, pairReq{"b", "cupd"}), b+1, bud), s2job(pairName(pairReq{"a", "cdel"}, pairReq{"b", "cupd"}), b+1, bud)}
 	})
 	add("C13", func(tier string) []check.Job {
 		b, bud := bnd(tier)
-		return []check.Job{s2job(pairName(pairReq{"a", "cupd"}, pairReq{"c", "unsub"}), b+1, bud), s2job(pairName(pairReq{"a", "cdel"}, pairReq{"c", "unsub"}), b+1, bud)}
+		return []check.Job{s2job(pairName(pairReq{"a", "cupd"}, pairReq{"c", "unsub"}), b+1, bud), s2job(pairName(pairReq{"a", "cdel"}, pairReq{"c", "unsub"}), b+1, bud),
+			s2job(pairName(pairReq{"a", "cadd"}, pairReq{"c", "leave"}), b+1, bud), s2job(pairName(pairReq{"a", "cdel"}, pairReq{"c", "leave"}), b+1, bud), s2job(pairName(pairReq{"a", "cadd"}, pairReq{"c", "switch"}), b+1, bud),
+			s2job(pairName(pairReq{"a", "cupd"}, pairReq{"b", "cdel"}), b+1, bud)}
 	})
+}
+
+// A coalesced update (pose / component) is pending in a connection's
+// scheduler, the session's frame tick fires, and the connection ends - all at
+// once: the frame worker's flush of that connection against its teardown
+// (leaveSession, stopFrameHandling, scheduler.Close). No goroutine may panic,
+// nothing may be relayed after the departure was announced (C11: no pose of a
+// deleted entity), the teardown completes.
+func init() {
+	for _, kind := range []string{"pose", "cupd"} {
+		kind := kind
+		for _, how := range []string{"close", "switch"} {
+			how := how
+			registerBlock("c11-pending-"+kind+"-tick-vs-"+how, func() *Block {
+				return &Block{
+					Cfg:   world.Config{Modules: []string{"vikja", "odal"}},
+					Setup: baseB1,
+					Fire: func(x *Ctx) {
+						a := x.C["a"]
+						ea, tid := x.Vars["ea"].(uint32), x.Vars["tid"].(uint32)
+						ts := x.W.NextTS()
+						x.Vars["ts"] = ts.Seconds
+						if kind == "pose" {
+							a.SendMsg(&hagallpb.EntityUpdatePose{Type: hagallpb.MsgType_MSG_TYPE_ENTITY_UPDATE_POSE, Timestamp: ts, EntityId: ea, Pose: &hagallpb.Pose{Px: 42}})
+						} else {
+							a.SendMsg(&hagallpb.EntityComponentUpdate{Type: hagallpb.MsgType_MSG_TYPE_ENTITY_COMPONENT_UPDATE, Timestamp: ts, EntityComponentTypeId: tid, EntityId: ea, Data: []byte("last")})
+						}
+						x.W.S.Advance(x.W.Cfg.FrameDuration)
+						if how == "close" {
+							a.Close()
+						} else {
+							m, _ := joinReq(x.W, a, "")
+							a.SendMsg(m)
+						}
+					},
+					Check: func(x *Ctx) {
+						for i := 0; i < 2; i++ {
+							x.W.Tick(x.W.Cfg.FrameDuration)
+						}
+						apid := x.J["a"].ParticipantID
+						ea := x.Vars["ea"].(uint32)
+						rt := int32(15)
+						if kind == "cupd" {
+							rt = 31
+						}
+						for _, n := range []string{"b", "c"} {
+							gone, cnt := false, 0
+							for _, r := range x.C[n].All() {
+								switch m := r.Msg.(type) {
+								case *hagallpb.EntityDeleteBroadcast:
+									if m.EntityId == ea {
+										gone = true
+									}
+								case *hagallpb.ParticipantLeaveBroadcast:
+									if m.ParticipantId == apid {
+										gone = true
+									}
+								}
+								if r.Type == rt && s1.Canon(r).Origin == x.Vars["ts"].(int64) {
+									cnt++
+									if gone {
+										x.fail("relay", kind+":relayed-after-departure", "%s was told that a's entity / a itself is gone and was then sent a's %s update", n, kind)
+									}
+								}
+							}
+							if cnt > 1 {
+								x.fail("relay", kind+":relayed-twice", "a's %s update reached %s %d times", kind, n, cnt)
+							}
+						}
+						delete(x.J, "a")
+						// the session lives on with b and c; a newcomer is handed what they hold
+						x.Vars["reqs"] = []*breq{}
+						x.conn("probe")
+						pj := join(x.W, x.C["probe"], x.J["b"].SessionID)
+						if !pj.OK {
+							x.fail("probe", "probe-cannot-join", "b and c are members but a probe is refused: %v", pj.Code)
+							return
+						}
+						pv := s1.NewView()
+						for _, r := range x.C["probe"].All() {
+							pv.Apply(r, nil)
+						}
+						delete(pv.PIDs, pj.ParticipantID)
+						mods := s1.Mods{Vikja: true, Odal: true}
+						for _, n := range []string{"b", "c"} {
+							v := finalView(x, n, nil)
+							delete(v.PIDs, pj.ParticipantID)
+							types := map[uint32]bool{}
+							if n == "c" {
+								types[x.Vars["tid"].(uint32)] = true
+							}
+							if have, want := v.State(types, mods), pv.State(types, mods); have != want {
+								x.fail("view", "view-differs:"+n+":"+diffClass(have, want), "a left with an update pending at a frame tick; afterwards the view of %s differs from what a newcomer is handed:\n   view : %s\n   probe: %s", n, have, want)
+							}
+						}
+					},
+					Final: finalInvariants,
+				}
+			})
+		}
+	}
+	names := []string{"c11-pending-pose-tick-vs-close", "c11-pending-pose-tick-vs-switch", "c11-pending-cupd-tick-vs-close", "c11-pending-cupd-tick-vs-switch"}
+	for _, id := range []string{"C11", "C08", "C01", "C06"} {
+		id := id
+		check.WrapPlanner(id, func(tier string, jobs []check.Job) []check.Job {
+			b, bud := 2, 200
+			if tier == "thorough" {
+				b, bud = 3, 1500
+			}
+			for _, n := range names {
+				if id == "C08" {
+					jobs = append(jobs, s2jobOpt(n, b, bud, true, false))
+				} else {
+					jobs = append(jobs, s2job(n, b, bud))
+				}
+			}
+			return jobs
+		})
+	}
 }
